@@ -127,6 +127,23 @@ def gen_c03(tier, seed):
                             c.finish(list(range(c.nvec)))
                         else: c.finish([1, 2])
                         cases.append(c)
+            # a splice whose replacement stops half-way - an item of the wrong type, or a lazy clone that panics - when
+            # the tail has already been moved: empty ranges (front, inner, end), an inner and the full range; vectors long
+            # enough for the moved tail and its stale copy to overlap in the visible part
+            if G.kind_cap(bk, layout[0]) is not None: continue
+            for L in ([3, 5] if q else [2, 3, 5, 6]):
+                for lo, hi in [("i1", "e1"), ("i0", "e0"), ("i%d" % L, "e%d" % L), ("i1", "e2"), ("u", "u")]:
+                    sp = [("splice 0 %s %s e %s +0 - drop" % (lo, hi, ",".join(r)), None)
+                          for r in (["w1", "w0", "w0"], ["w0", "w1", "w0"], ["w0", "r0", "w1"], ["w0", "w1"])]
+                    sp += [("splice 0 %s %s e l1.0.1,w0,l1.1.1 +0 - drop" % (lo, hi), f) for f in (1, 2, 3, 4)]
+                    sp += [("splice 0 %s %s e w0,l1.1.1 +0 - drop" % (lo, hi), f) for f in (1, 2)]
+                    for op, f in sp:
+                        c = G.Case("ownf%d" % k, layout); k += 1
+                        G.setup3(c, bk, "clone", L, rng)
+                        c.add(op, fault=f)
+                        for fl in FOLLOW: c.add(fl)
+                        c.finish(list(range(c.nvec)))
+                        cases.append(c)
     return cases
 
 PROPS["C03"] = {"gen": gen_c03, "proj": {}, "kinds": OWN,
@@ -600,21 +617,24 @@ def gen_c14(tier, seed):
             teardown(c); cases.append(c)
             for s in range(L + 1):
                 for e in range(s, L + 1):
-                    for cs in G.choice_strings(e - s, 2, rng, cap=10 if q else 40):
+                    # the range in every `RangeBounds` spelling (included / excluded / unbounded on either side), in turn
+                    forms = G.range_forms(s, e, L)
+                    for k, cs in enumerate(G.choice_strings(e - s, 2, rng, cap=10 if q else 40)):
+                        lo, hi = forms[k % len(forms)]
                         for typed in "et":
                             eats = ",".join("%s:drop" % ch for ch in cs) or "-"
                             c = G.Case("it%d" % n, layout); n += 1
                             c.new(0, "heap", "clone"); G.fill(c, 0, L, rng)
-                            c.add("drain 0 i%d e%d %s %s drop" % (s, e, typed, eats)); c.add("probe 0")
+                            c.add("drain 0 %s %s %s %s drop" % (lo, hi, typed, eats)); c.add("probe 0")
                             teardown(c); cases.append(c)
                             c = G.Case("it%d" % n, layout); n += 1
                             c.new(0, "heap", "clone"); G.fill(c, 0, L, rng)
-                            c.add("splice 0 i%d e%d %s w0 +0 %s drop" % (s, e, typed, eats)); c.add("probe 0")
+                            c.add("splice 0 %s %s %s w0 +0 %s drop" % (lo, hi, typed, eats)); c.add("probe 0")
                             teardown(c); cases.append(c)
     return cases
 
 PROPS["C14"] = {"gen": gen_c14, "proj": {}, "kinds": SEM,
-    "rule": "every state up to the bound, every sub-range for drain/splice (erased and typed), every next/next_back "
+    "rule": "every state up to the bound, every sub-range for drain/splice (erased and typed; the range spelt in every RangeBounds form in turn), every next/next_back "
             "interleaving up to range length + 2 calls (all 2^n strings while small, sampled beyond): yielded element and "
             "len()/size_hint at every step, None after exhaustion; clones of an iterator taken after every prefix of calls",
     "design_ref": "DESIGN.md section 7, C14"}
